@@ -1362,7 +1362,12 @@ func c15RunFuzz(c *wk.Case) {
 		if k%10 == 0 {
 			keep = append(keep, c15Kept{gen, src, r})
 		}
+		if r.ok && r.tree != nil {
+			// whatever the generator meant the text to be: it parses alone, so it composes (c15_r6.go)
+			c15ComposeWithPartner(c, "pair:fuzz+partner", src, r, c.Index+k)
+		}
 	}
+	c15RunFuzzOpenEnds(c, scripts) // c15_r6.go; draws from c.Rng only after the inputs above
 	for _, k := range keep {
 		c15Recheck(c, k.gen, k.src, k.r)
 	}
@@ -1387,7 +1392,10 @@ func c15RunCorpus(c *wk.Case) {
 	}
 	// truncation at every byte offset, and every suffix
 	for k := 0; k < len(s); k++ {
-		c15Check(c, "corpus-prefix", s[:k])
+		if rp := c15Check(c, "corpus-prefix", s[:k]); rp.ok && rp.tree != nil {
+			// a truncated script that parses alone is a valid first part (c15_r6.go)
+			c15ComposeWithPartner(c, "pair:corpus-prefix+partner", s[:k], rp, k)
+		}
 		if k > 0 {
 			c15Check(c, "corpus-suffix", s[k:])
 		}
@@ -1594,6 +1602,7 @@ func init() {
 					"phase types: PRNG type expressions (all forms, blanks/newlines where the grammar allows them, a dotted path after every form, depth<=5) at every use site of a type (new, make with 1-3 arguments, make(type ..), typed array/map literals, as element of pointer/slice/chan/map/struct types, nested in calls/operators/statements), one third with 1-2 token edits of the type (delete/duplicate/swap/replace/truncate/insert); the texts that parse are composed pairwise as in phase pairs. " +
 					"phase corpus: every script of the repository's corpus, every prefix and every suffix of it, CRLF/CR variants. phase fuzz: token soup, byte soup, grammar-generated programs, 1-3 mutations of a corpus script (delete/duplicate/swap/replace/truncate/bracket insert+remove/splice/insert byte/newline variation/blank-run variation/junk); generated programs and token soup spell the receive assignment with every target form and every white space (none, blanks, tab, LF, CRLF, several) between '=' and '<-'. " +
 					"phase recvassign: deterministic list - every target form x every gap between '=' and '<-' (none, blank, tab, LF, CRLF, CR, several line breaks with indentation, FF, VT, NBSP, NEL, U+2028, U+3000, comments with and without line breaks) x receive operands; each spelling alone, in " + strconv.Itoa(len(c15RecvErrCtx)) + " contexts that put a syntax/lexer error behind it (same line, next line, after an empty line, after a longer or shorter line, inside blocks, twice in a row) and at every truncation, judged by the error-position oracle; each spelling (bare and inside blocks/statement lists) that parses alone is composed with " + strconv.Itoa(len(c15RecvPartners)) + " partner texts in both orders as in phase edgepairs. " +
+					"phase openends: deterministic list - every operator, keyword and atom at the end of " + strconv.Itoa(len(c15OpenStems)) + " stems x gap (none, blank, line break) x " + strconv.Itoa(len(c15OpenTails)) + " tails (all of them behind " + strconv.Itoa(c15OpenStemsFull) + " stems, " + strconv.Itoa(len(c15OpenTailsCore)) + " - one of every kind - behind the others; unterminated raw string/string/char/block comment at EOF, at a line end, after a backslash; half-written numbers, '..', stray and invalid bytes; control group: the terminated counterparts, line comments, plain operands); every text is judged by the totality/position/determinism oracles, and each one that parses alone - whatever it ends in - is the first part of a concatenation with " + strconv.Itoa(len(c15OpenPartners)) + " partner texts (containing back quotes, quotes, comment ends, several lines) and the second part with 3 of them. The same composition is applied to every prefix of a corpus script that parses alone (phase corpus, one partner each), to every fuzz input that parses alone, and to 30 open-end mutants per fuzz case (cut inside a quoted token, closing quote removed, open tail after an '=' or after any token, unterminated raw string in front of the rest of the text). " +
 					"phase edgepairs: complete square of hand-written valid edge texts and edge x corpus both ways; phase pairs: PRNG pairs (corpus, generated, mutated-but-valid, edge) — A, B parse alone => A+\"\\n\"+B parses to stmts(A)++stmts(B), compared statement by statement by reflective dump with B's lines shifted by count('\\n',A)+1. " +
 					"phase race (-race build): 8 goroutines parse the same text simultaneously and different texts interleaved; every result equals the sequential one. " +
 					"An evaluation is non-trivial when the text is not blank (pairs: both sides have >=1 statement); distinct = distinct text (pair).",
@@ -1603,6 +1612,7 @@ func init() {
 					"what accompanies a non-nil error (partial tree), the error message and the Fatal flag are not judged; determinism compares outcome class, tree dump with positions, and error message+position",
 					"astx.Dump (reflection over all exported fields, positions via ast.Pos) is the tree identity",
 					"which white space may stand between the '=' and the '<-' of a receive assignment is not judged (the statement is silent): a spelling that fails is judged as an error text, one that parses alone must compose like every other text",
+					"a text that ends in an unterminated string, raw string or comment is not required to fail (the statement does not say which texts are programs): if ParseSrc accepts it, it is a text that parses on its own and must compose like every other; if not, it is judged as an error text",
 				},
 				CrashIsViolation: true,
 				Phases: []fw.Phase{
@@ -1610,6 +1620,7 @@ func init() {
 					{Name: "corpus", Cases: nCorpus, Chunk: 50, TimeoutS: 900},
 					{Name: "edgepairs", Cases: len(c15EdgeTexts), Chunk: 8, TimeoutS: 900},
 					{Name: "recvassign", Cases: c15RecvCases(), Chunk: 16, Jobs: 4, MemMB: 3072, TimeoutS: 900},
+					{Name: "openends", Cases: c15OpenCases(), Chunk: 8, Jobs: 4, MemMB: 3072, TimeoutS: 900},
 					{Name: "fuzz", Cases: nFuzz, Chunk: 25, TimeoutS: 900},
 					{Name: "pairs", Cases: nPairs, Chunk: 25, TimeoutS: 900},
 					{Name: "types", Cases: nTypes, Chunk: 25, TimeoutS: 900},
@@ -1640,6 +1651,8 @@ func init() {
 				c15RunTypes(c)
 			case "recvassign":
 				c15RunRecvAssign(c) // c15_r5.go
+			case "openends":
+				c15RunOpenEnds(c) // c15_r6.go
 			case "race":
 				c15RunRace(c)
 			}
